@@ -1,9 +1,11 @@
 (* C06 — flat-integer interface of the model for the correspondence check.
-   input : [ns; NB; P; ns2add; offset; nc_out; nbytes; ncv; rms_offset; time_offset]
+   input : [ns; NB; P; ns2add; offset; nc_out; nbytes; ncv; rms_offset; time_offset] ++ probes
+           (probes: sample indices in [0, ns) at which the saturation bookkeeping is reported)
            (SAMPLES_TAPER is the source's constant 1024)
    output: nbatches :: file_end :: rms_end :: time_end
-           :: enc_list worker  (per worker: status, events (7 ints each), pads (4 ints each))
-           ++ enc_list batch   (closed-form write map per batch: first, last, glo, ghi, local lo) *)
+           :: enc_list worker  (per worker: status, events (8 ints each), pads (4 ints each))
+           ++ enc_list batch   (closed-form write map per batch: first, last, glo, ghi, local lo)
+           ++ enc_list probe   (3 ints each) *)
 From Coq Require Import ZArith List Bool.
 From IBL.lib Require Import PyInt RunLib.
 From IBL.C06 Require Import Model.
@@ -11,7 +13,7 @@ Import ListNotations.
 Open Scope Z_scope.
 
 Definition enc_bevent (e : bevent) : list Z :=
-  [e_first e; e_last e; e_pos e; e_lo e; e_cnt e; e_rms_pos e; e_time_pos e].
+  [e_first e; e_last e; e_pos e; e_lo e; e_cnt e; e_rms_pos e; e_time_pos e; stage_code sat_input_stage].
 Definition enc_pevent (p : pevent) : list Z := [p_first p; p_pos p; p_cnt p; p_src p].
 Definition enc_wres (r : wres) : list Z :=
   match r with
@@ -22,9 +24,15 @@ Definition enc_wres (r : wres) : list Z :=
 Definition enc_batch (c : cfg) (k : Z) : list Z :=
   [first_of c k; last_of c k; glo c k; ghi c k; glo c k - first_of c k].
 
+(* saturation vector at sample g: first_s of the first / last batch whose slice assignment covers
+   g, and (one worker: sequential order) the batch whose verdict stays *)
+Definition enc_probe (c : cfg) (g : Z) : list Z :=
+  [first_of c (sat_first c g); first_of c (sat_last c g);
+   if c_P c =? 1 then match sat_after (all_sat_ops c) g with Some (f, _) => f | None => -1 end else -2].
+
 Definition run (inp : list Z) : list Z :=
   match inp with
-  | [ns; NB; P; ns2add; offset; ncout; nbytes; ncv; roff; toff] =>
+  | ns :: NB :: P :: ns2add :: offset :: ncout :: nbytes :: ncv :: roff :: toff :: probes =>
       let c := mkCfg SAMPLES_TAPER ns NB P ns2add offset ncout nbytes ncv roff toff in
       nbatches c
       :: (offset + (ns + ns2add) * rowbytes c)
@@ -32,6 +40,7 @@ Definition run (inp : list Z) : list Z :=
       :: (toff + nbatches c * rms_nbytes)
       :: enc_list enc_wres (workers c)
       ++ enc_list (enc_batch c) (zrange (Z.to_nat (nbatches c)))
+      ++ enc_list (enc_probe c) probes
   | _ => [-999]
   end.
 
